@@ -332,6 +332,26 @@ pub fn run(cfg: &RunCfg, rep: &mut Report) {
                 }
             } else {
                 rep.count("concrete-parse-rejected");
+                // the parser runs the same mixed-time-lock check: a refusal for that reason is judged too
+                let why = guarded(|| Concrete::<String>::from_str(&cs).err().map(|e| e.to_string())).ok().flatten().unwrap_or_default();
+                let has_const = cs.contains("TRIVIAL") || cs.contains("UNSATISFIABLE");
+                if !has_const && why.contains("heightlock and timelock combination") {
+                    if let Some(paths) = c.paths(4096) {
+                        const T: u32 = 500_000_000;
+                        let truth = paths.iter().any(|path| {
+                            let ah = path.iter().any(|a| matches!(a, Atom::After(t) if *t < T));
+                            let at = path.iter().any(|a| matches!(a, Atom::After(t) if *t >= T));
+                            let oh = path.iter().any(|a| matches!(a, Atom::Older(t) if t & (1 << 22) == 0));
+                            let ot = path.iter().any(|a| matches!(a, Atom::Older(t) if t & (1 << 22) != 0));
+                            (ah && at) || (oh && ot)
+                        });
+                        if !truth {
+                            rep.violation(i, "C18:check_timelocks:false-positive".into(), format!("Concrete::from_str({}) refuses it for mixing height and time locks, but no satisfying path needs both units of one kind", cs));
+                        } else {
+                            rep.count("parser-refuses-mixed-path(agrees)");
+                        }
+                    }
+                }
             }
             // n-ary conjunctions / disjunctions assembled through the API (the parser only builds
             // binary ones): lifting must keep "all of" / "one of"
